@@ -43,8 +43,12 @@ class Dev:
     """Deviation switches for one evaluation of the model."""
 
     def __init__(self, waiver=False, fmt_unknown=True, curated=None, formats=("uuid", "date-time"),
-                 nested_bool_conflation=False, custom=None):
+                 nested_bool_conflation=False, custom=None, mult_disputed=True):
         self.waiver = waiver
+        # verdict for a multipleOf on which binary floating point, exact arithmetic on the doubles and decimal
+        # arithmetic on the shortest representation do not all agree (Draft 6 is silent on precision)
+        self.mult_disputed = mult_disputed
+        self.used_mult_disputed = False
         # verdict for strings whose membership in a registered format is not
         # unambiguous between the RFC and the registered checker
         self.fmt_unknown = fmt_unknown
@@ -55,6 +59,39 @@ class Dev:
         self.nested_bool_conflation = nested_bool_conflation
         self.used_waiver = False
         self.used_fmt_unknown = False
+
+
+def multiple_readings(value, multiple):
+    """Verdicts of the defensible readings of `value multipleOf multiple`.  With two integers there is one
+    reading.  As soon as a float takes part: exact arithmetic on the doubles, decimal arithmetic on their
+    shortest representations (what the JSON text said), and the float quotient every floating-point
+    validator computes (which cannot tell neighbours apart beyond 2**53, and overflows to the exact
+    reading).  The model is decisive only where all of them agree."""
+    out = set()
+    try:
+        exact = (Fraction(value) / Fraction(multiple)).denominator == 1
+    except (OverflowError, ValueError, ZeroDivisionError):
+        exact = False
+    out.add(exact)
+    if isinstance(value, float) or isinstance(multiple, float):
+        import decimal  # pylint: disable=import-outside-toplevel
+
+        try:
+            with decimal.localcontext() as context:
+                context.prec = 2000
+                context.Emax = decimal.MAX_EMAX
+                context.Emin = decimal.MIN_EMIN
+                quotient = decimal.Decimal(repr(value)) / decimal.Decimal(repr(multiple))
+                out.add(quotient == quotient.to_integral_value())
+        except (decimal.DecimalException, ValueError, OverflowError):
+            pass
+        try:
+            quotient = value / multiple
+            if quotient not in (float("inf"), float("-inf")) and quotient == quotient:
+                out.add(int(quotient) == quotient)
+        except (OverflowError, ZeroDivisionError, ValueError):
+            pass
+    return out
 
 
 def is_number(value):
@@ -148,11 +185,12 @@ def valid(schema, value, root=None, dev=None, depth=0):
 
     if is_number(value):
         if "multipleOf" in schema:
-            try:
-                quotient = Fraction(value) / Fraction(schema["multipleOf"])
-            except (OverflowError, ValueError):
-                return False
-            if quotient.denominator != 1:
+            readings = multiple_readings(value, schema["multipleOf"])
+            if len(readings) == 2:
+                dev.used_mult_disputed = True
+                if not dev.mult_disputed:
+                    return False
+            elif readings == {False}:
                 return False
         if "maximum" in schema and value > schema["maximum"]:
             return False
@@ -291,20 +329,26 @@ def verdicts(schema, value, root=None, curated=None, **switches):
     in a registered format differs between RFC and registered checker).
     """
     out = set()
-    first = Dev(waiver=False, fmt_unknown=True, curated=curated, **switches)
+    first = Dev(waiver=False, fmt_unknown=True, mult_disputed=True, curated=curated, **switches)
     out.add(valid(schema, value, root, first))
-    combos = []
-    if first.used_waiver or first.used_fmt_unknown:
-        combos = [(True, True), (False, False), (True, False)]
-    else:
-        # short-circuiting may have hidden a later use of a switch: probe once
-        probe = Dev(waiver=True, fmt_unknown=False, curated=curated, **switches)
-        out.add(valid(schema, value, root, probe))
-        if probe.used_waiver or probe.used_fmt_unknown:
-            combos = [(True, True), (False, False)]
-    for waiver, fmt_unknown in combos:
-        out.add(valid(schema, value, root, Dev(waiver=waiver, fmt_unknown=fmt_unknown,
-                                                 curated=curated, **switches)))
+    # short-circuiting may have hidden a later use of a switch: probe once with every switch flipped
+    probe = Dev(waiver=True, fmt_unknown=False, mult_disputed=False, curated=curated, **switches)
+    out.add(valid(schema, value, root, probe))
+    used = [first.used_waiver or probe.used_waiver, first.used_fmt_unknown or probe.used_fmt_unknown,
+            first.used_mult_disputed or probe.used_mult_disputed]
+    if used[2]:
+        # a disputed multipleOf was consulted: each occurrence may fall either way on its own (and under
+        # oneOf / not the effect is not monotonic), so the model does not decide this case
+        return {True, False}
+    if any(used) and len(out) < 2:
+        import itertools  # pylint: disable=import-outside-toplevel
+
+        for waiver, fmt_unknown, mult in itertools.product(*[(True, False) if flag else (None,) for flag in used]):
+            dev = Dev(waiver=bool(waiver), fmt_unknown=True if fmt_unknown is None else fmt_unknown,
+                      mult_disputed=True if mult is None else mult, curated=curated, **switches)
+            out.add(valid(schema, value, root, dev))
+            if len(out) == 2:
+                break
     return out
 
 
